@@ -34,7 +34,7 @@ PID = "C09"
 GEN: list = []
 
 PREAMBLE = """From Coq Require Import NArith List Bool.
-From NG Require Import V2.Index V2.IndexRun.
+From NG Require Import V2.Index V2.IndexRun V2.Refs.
 Import ListNotations.
 Open Scope N_scope.
 """
@@ -65,6 +65,33 @@ class Tracer:
         self.obs = {}            # (inst uid, pos) -> elem tuple
         self.obs_conflicts = []
         self.mods = None
+        self.aevents = []        # operations on State.actions / references (V2.Refs)
+        self.last_refs = {}      # inst uid -> (listening, tuple(refs)) as last reported
+
+    @staticmethod
+    def refs_of(fs):
+        d = fs.__dict__
+        refs = list(d.get("action_uids") or [])
+        for sc in (d.get("scopes") or {}).values():
+            refs += list(sc[1])
+        st = d.get("_status")
+        return (getattr(st, "value", None) in LISTENING, tuple(refs))
+
+    def current_refs(self):
+        return {uid: self.refs_of(fs) for uid, fs in dict.items(self.insts())}
+
+    def sync_refs(self):
+        """Report the instances whose status class / action references changed since the last
+        report (called right before every mutation of State.actions and at the end of a segment)."""
+        cur = self.current_refs()
+        for uid in list(self.last_refs):
+            if uid not in cur:
+                self.aevents.append(("ADropInst", uid))
+                del self.last_refs[uid]
+        for uid, v in cur.items():
+            if self.last_refs.get(uid) != v:
+                self.aevents.append(("ASetInst", uid, v[0], list(v[1])))
+                self.last_refs[uid] = v
 
     # ---- helpers
     def insts(self):
@@ -148,6 +175,8 @@ class Tracer:
         self.ctx = []
         self.obs = {}
         self.obs_conflicts = []
+        self.aevents = []
+        self.last_refs = self.current_refs() if self.state is not None else {}
 
 
 TR = Tracer()
@@ -270,8 +299,52 @@ def install():
                 self[k] = default
             return dict.__getitem__(self, k)
 
+    class TracedActions(dict):
+        def _live(self):
+            return TR.enabled and self.__dict__.get("_owner") is TR.state and TR.state is not None
+
+        def __setitem__(self, k, v):
+            if self._live():
+                TR.sync_refs()
+                TR.aevents.append(("AAddAction", k))
+            dict.__setitem__(self, k, v)
+
+        def __delitem__(self, k):
+            if self._live() and dict.__contains__(self, k):
+                TR.sync_refs()
+                TR.aevents.append(("ADelAction", k))
+            dict.__delitem__(self, k)
+
+        def pop(self, k, *a):
+            if self._live() and dict.__contains__(self, k):
+                TR.sync_refs()
+                TR.aevents.append(("ADelAction", k))
+            return dict.pop(self, k, *a)
+
+        def popitem(self):
+            if self._live() and len(self):
+                TR.sync_refs()
+                TR.aevents.append(("ADelAction", next(reversed(self))))
+            return dict.popitem(self)
+
+        def clear(self):
+            if self._live():
+                TR.sync_refs()
+                TR.aevents.append(("AReplaceActions", []))
+            dict.clear(self)
+
+        def update(self, *a, **kw):
+            for k, v in dict(*a, **kw).items():
+                self[k] = v
+
+        def setdefault(self, k, default=None):
+            if not dict.__contains__(self, k):
+                self[k] = default
+            return dict.__getitem__(self, k)
+
     mods["TracedHeads"] = TracedHeads
     mods["TracedInsts"] = TracedInsts
+    mods["TracedActions"] = TracedActions
 
     # ---- __setattr__ hooks --------------------------------------------------------------
     def state_setattr(self, name, value):
@@ -284,6 +357,13 @@ def install():
         elif name in ("event_matching_heads", "event_matching_heads_reverse_map"):
             if TR.enabled and self is TR.state:
                 TR.emit(("UNKNOWN", name + " replaced"))
+        elif name == "actions" and isinstance(value, dict):
+            if not isinstance(value, TracedActions):
+                value = TracedActions(value)
+            value.__dict__["_owner"] = self
+            if TR.enabled and self is TR.state:
+                TR.sync_refs()
+                TR.aevents.append(("AReplaceActions", list(value.keys())))
         object.__setattr__(self, name, value)
 
     fl.State.__setattr__ = state_setattr
@@ -457,6 +537,9 @@ def instrument_state(state):
     if not isinstance(state.flow_states, mods["TracedInsts"]):
         state.flow_states = state.flow_states  # goes through state_setattr
     state.flow_states.__dict__["_owner"] = state
+    if not isinstance(state.actions, mods["TracedActions"]):
+        state.actions = state.actions
+    state.actions.__dict__["_owner"] = state
     for fs in dict.values(state.flow_states):
         if not isinstance(fs.heads, mods["TracedHeads"]):
             fs.heads = fs.heads
@@ -889,6 +972,34 @@ def segment_term(seg):
     return term, hashlib.sha1(term.encode()).hexdigest()
 
 
+def astate_of(sn):
+    return {"actions": list(sn["actions"]),
+            "insts": [[it["uid"], it["status"] in LISTENING, list(it["actions"]) + list(it["scope_actions"])] for it in sn["insts"]]}
+
+
+def aseg_term(before, aops, after):
+    I = Interner()
+
+    def st(a):
+        insts = [f"({I('u', u)}, ({C.coq_bool(l)}, {C.coq_list([str(I('a', x)) for x in r])}))" for u, l, r in a["insts"]]
+        return f"(mkA {C.coq_list([str(I('a', x)) for x in a['actions']])} {C.coq_list(insts)})"
+
+    def op(o):
+        k = o[0]
+        if k in ("AAddAction", "ADelAction"):
+            return f"({k} {I('a', o[1])})"
+        if k == "AReplaceActions":
+            return f"(AReplaceActions {C.coq_list([str(I('a', x)) for x in o[1]])})"
+        if k == "ASetInst":
+            return f"(ASetInst {I('u', o[1])} {C.coq_bool(o[2])} {C.coq_list([str(I('a', x)) for x in o[3]])})"
+        if k == "ADropInst":
+            return f"(ADropInst {I('u', o[1])})"
+        raise Unsupported(k)
+
+    term = f"({st(before)}, {C.coq_list([op(o) for o in aops])}, {st(after)})"
+    return term, hashlib.sha1(term.encode()).hexdigest()
+
+
 def snapshot_term(sn, obs_list):
     I = Interner()
     obs = {(k[0], k[1]): tuple(v) for k, v in obs_list}
@@ -1087,7 +1198,7 @@ def shared_action_programs(rng, n):
         ["  start {act} as $act", "  match E2()", "  abort"],
         ["  when {act}", "    match E3()", "  or when E2()", "    match E3()"],
         ["  when E2()", "    match E3()", "  or when {act}", "    send O1()"],
-        ["  await {act} or E2()", "  match E3()"],
+        ["  start {act} as $act", "  match E2() or $act.Finished()", "  match E3()"],
         ["  start {act} as $act", "  match $act.Finished() or E2()"],
         ["  await {act}", "  await {act}"],
     ]
@@ -1307,6 +1418,8 @@ class Explorer:
             new_state = state
         events = TR.events
         TR.enabled = True   # observations during the snapshot
+        TR.sync_refs()
+        aops = list(TR.aevents)
         after = snapshot(new_state)
         TR.enabled = False
         ops = group_events(events)
@@ -1332,6 +1445,12 @@ class Explorer:
                     o[0] in ("OForkHead", "ODelHead", "OClearHeads", "OMainRestart", "ONewInst", "ODelInst") for o in ops))
                 self.sink["segments"].append({"hash": h, "term": term, "n_ops": len(ops), "nontrivial": bool(nontrivial),
                                               "program": self.prog["id"], "history": hist})
+            if aops or after["actions"] or before["actions"]:
+                aterm, ah = aseg_term(astate_of(before), aops, astate_of(after))
+                if ah not in self.sink["aseg_seen"]:
+                    self.sink["aseg_seen"].add(ah)
+                    self.sink["asegs"].append({"hash": ah, "term": aterm, "n_ops": len(aops), "program": self.prog["id"], "history": hist})
+                self.sink["aops"] += len(aops)
             sterm, sh = snapshot_term(after, seg["obs"])
             if not crashed and sh not in self.sink["snap_seen"]:
                 self.sink["snap_seen"].add(sh)
@@ -1515,7 +1634,7 @@ class Explorer:
 
 def new_sink():
     return {"runs": 0, "ops": 0, "op_hist": {}, "status_counts": {}, "unknown": [], "name_drift": [], "snapshot_problems": [],
-            "segments": [], "snaps": [], "seg_seen": set(), "snap_seen": set(), "unsupported": [], "findings": [],
+            "segments": [], "snaps": [], "seg_seen": set(), "snap_seen": set(), "asegs": [], "aseg_seen": set(), "aops": 0, "unsupported": [], "findings": [],
             "obs_fork_table_dangling": 0, "oracle_evals": 0, "crash_samples": [], "roundtrips": 0, "roundtrip_errors": 0,
             "choice_points": 0, "truncated": False, "load": None, "complete_len": 0}
 
@@ -1524,13 +1643,13 @@ def worker_main(jobfile, outfile):
     job = json.load(open(jobfile))
     install()
     signal.signal(signal.SIGALRM, _alarm)
-    seg_seen, snap_seen = set(), set()
+    seg_seen, snap_seen, aseg_seen = set(), set(), set()
     with open(outfile, "w") as out:
         for prog in job["programs"]:
             out.write(json.dumps({"begin": prog["id"]}) + "\n")
             out.flush()
             sink = new_sink()
-            sink["seg_seen"], sink["snap_seen"] = seg_seen, snap_seen
+            sink["seg_seen"], sink["snap_seen"], sink["aseg_seen"] = seg_seen, snap_seen, aseg_seen
             cfg = dict(job["cfg"])
             cfg["mode"] = prog.get("mode")
             t0 = time.time()
@@ -1541,6 +1660,7 @@ def worker_main(jobfile, outfile):
             sink["wall_s"] = round(time.time() - t0, 2)
             sink.pop("seg_seen")
             sink.pop("snap_seen")
+            sink.pop("aseg_seen")
             for k in ("unknown", "name_drift", "snapshot_problems", "unsupported", "findings", "crash_samples"):
                 sink[k + "_n"] = len(sink[k])
                 sink[k] = sink[k][:5]
@@ -1648,7 +1768,7 @@ def run(tier, seed, replay=None):
     for br in b["broken"]:
         out.add_broken(br, b["log"])
     with C.BuildLock():
-        okm, logm = C.coq_make(["theories/V2/IndexRun.vo"])
+        okm, logm = C.coq_make(["theories/V2/IndexRun.vo", "theories/V2/Refs.vo"])
     if not okm:
         out.add_broken("coq:theories/V2/IndexRun.v", logm)
 
@@ -1692,7 +1812,8 @@ def run(tier, seed, replay=None):
 
     # ---- aggregate
     agg = {"runs": 0, "ops": 0, "oracle_evals": 0, "roundtrips": 0, "roundtrip_errors": 0, "choice_points": 0,
-           "obs_fork_table_dangling": 0}
+           "obs_fork_table_dangling": 0, "aops": 0}
+    asegs = {}
     op_hist, status_counts, loads = {}, {}, {}
     segs, snaps = {}, {}
     findings, unknown, drift, snapprob, unsupported, crashes = [], [], [], [], [], []
@@ -1718,6 +1839,8 @@ def run(tier, seed, replay=None):
             segs.setdefault(s["hash"], s)
         for s in r["snaps"]:
             snaps.setdefault(s["hash"], s)
+        for s in r.get("asegs", []):
+            asegs.setdefault(s["hash"], s)
         findings += r["findings"]
         unknown += r["unknown"]
         drift += r["name_drift"]
@@ -1756,6 +1879,23 @@ def run(tier, seed, replay=None):
             out.add_broken("correspondence:C09-snapshots(coqc)", err)
         else:
             bad_snaps = [s for ok, s in zip(bools, snap_list) if not ok]
+    aseg_list = list(asegs.values())
+    bad_asegs = []
+    if okm and aseg_list:
+        bools, err = C.run_cases(PID + "_aseg", PREAMBLE, [s["term"] for s in aseg_list], "check_aseg", shard=300)
+        if err:
+            out.add_broken("correspondence:C09-action-references(coqc)", err)
+        else:
+            bad_asegs = [s for ok, s in zip(bools, aseg_list) if not ok]
+    if bad_asegs:
+        s = min(bad_asegs, key=lambda s: (s["n_ops"], len(s["term"])))
+        diag = C.eval_term(PID + "_aseg", PREAMBLE, f"diag_aseg {s['term']}")
+        src = next((p["src"] for p in all_progs if p["id"] == s["program"]), None)
+        out.add_broken("correspondence:C09-action-references",
+                       f"{len(bad_asegs)} of {len(aseg_list)} distinct segments are not runs of V2.Refs (an action removed while a running "
+                       f"flow references it, a running flow referencing a missing action, or the final table differs). "
+                       f"smallest: program={s['program']} history={json.dumps(s['history'])}\n"
+                       f"diag (index of the first failing operation, final model state): {diag[-800:]}\nprogram:\n{src}\nterm: {s['term'][:2000]}")
     if bad_segs:
         s = min(bad_segs, key=lambda s: (s["n_ops"], len(s["term"])))
         diag = C.eval_term(PID + "_seg", PREAMBLE, f"diag_seg {s['term']}")
@@ -1808,7 +1948,8 @@ def run(tier, seed, replay=None):
         "distinct_segments": len(seg_list), "distinct_snapshots_checked_in_coq": len(snap_list),
         "operations_traced": agg["ops"], "oracle_evaluations": agg["oracle_evals"],
         "oracle_violations": len(findings),
-        "correspondence_disagreements": len(bad_segs) + len(bad_snaps) + len(unknown),
+        "correspondence_disagreements": len(bad_segs) + len(bad_snaps) + len(unknown) + len(bad_asegs),
+        "distinct_action_reference_segments": len(aseg_list), "action_reference_operations_traced": agg["aops"],
         "hangs_or_killed_programs(C10)": hangs[:10], "hang_count": len(hangs) + status_counts.get("hang", 0),
         "crashes(C10)": crashes[:5],
         "observation_fork_table_entries_pointing_to_deleted_heads": agg["obs_fork_table_dangling"],
